@@ -7,6 +7,7 @@ def determinism(args, C):
     bad = 0
     for prop in props:
         flavours = C.PROPS[prop]['flavours']
+        C._group[0] = C.GROUP_OF[prop]
         C.build(flavours)
         ref = None
         for fl in flavours:
